@@ -199,7 +199,7 @@ func (rn *runner) stressRound(procs, gor, iters, npaths int, seed uint64) bool {
 }
 
 func (rn *runner) stressPhase() {
-	rounds, procs, gor, iters := 3, 6, 4, 150
+	rounds, procs, gor, iters := 6, 8, 4, 200
 	if rn.f.Tier != "quick" {
 		rounds, procs, gor, iters = 12, 8, 6, 600
 	}
